@@ -45,6 +45,7 @@ def _explore(task):
             env.install_symbolic()
             _INSTALLED.append(True)
         from engine import symx, ctx as C
+        import z3
         h = importlib.import_module('harness.' + hname)
         E = symx.Explorer(query_timeout_ms=limits['query_timeout_ms'], max_paths=limits['max_paths'],
                           seed=seed, deadline_s=limits['cfg_deadline_s'])
@@ -84,10 +85,25 @@ def _explore(task):
                 if j >= want:
                     return
                 slot = j
-            vals = E_.witness()
-            model = E_.model
+            gv, on_grid = E_.grid_values()
+            if on_grid:
+                # float-exact witness: evaluate the observations under exactly these values
+                sub = z3.Solver()
+                for name, v in E_.vars.items():
+                    val = gv[name]
+                    if isinstance(val, bool):
+                        sub.add(v == val)
+                    elif isinstance(val, int):
+                        sub.add(v == val)
+                    else:
+                        sub.add(v == z3.RealVal(str(val)))
+                sub.check()
+                model, vals = sub.model(), gv
+            else:
+                vals = E_.witness()
+                model = E_.model
             obs = _concretise(sc.observations, model, symx)
-            out['witnesses'][slot] = dict(values={k2: C.enc(v) for k2, v in vals.items()}, obs=C.enc(obs))
+            out['witnesses'][slot] = dict(values={k2: C.enc(v) for k2, v in vals.items()}, obs=C.enc(obs), grid=on_grid)
 
         E.on_path_end = on_end
         E.run(body, initial=prefix, split_at=split_at)
@@ -291,6 +307,8 @@ def _finish(pid, hname, h, tier, seed, results, real, t0, limits):
         so, ro = C.dec(w['obs']), C.dec(rr['obs'])
         if C.close(so, ro):
             validated += 1
+        elif not w.get('grid'):
+            wit_skipped += 1     # rational witness off the float-exact grid: rounding may flip a tie
         else:
             wit_bad.append(dict(cfg=cfg, values=w['values'], why='observation mismatch',
                                 sym=w['obs'], real=rr['obs']))
